@@ -32,6 +32,7 @@ func genC19(c *Ctx) {
 			c.Case(fmt.Sprintf("bls-first-use/g=%d", g), fmt.Sprintf("expect ok #blsfresh %d %d", g, r), mixBLSFirstUse(c, g))
 			if r%3 == 0 {
 				c.Case(fmt.Sprintf("bls-after-rejected/g=%d", g), fmt.Sprintf("expect ok #blsrej %d %d", g, r), mixBLSAfterRejected(c, g, r))
+				c.Case(fmt.Sprintf("bls-distinct-inputs/g=%d", g), fmt.Sprintf("expect ok #blsdist %d %d", g, r), mixBLSDistinctInputs(c, g))
 			}
 		}
 	}
@@ -271,6 +272,83 @@ func mixBLSAfterRejected(c *Ctx, g int, r int) string {
 	for _, x := range results {
 		if x != "" {
 			return x
+		}
+	}
+	return "ok"
+}
+
+// mixBLSDistinctInputs: every goroutine works on its OWN message, tag and key (the calls share no argument but the
+// process: state kept between calls inside the library - a memo of the last hash-to-curve, a scratch buffer - is then
+// fed different inputs by overlapping calls), in a tight loop of sign / verify / PoP compared with the results of the
+// same calls made alone; then each goroutine's calls are made once more, sequentially (a memo poisoned while the calls
+// overlapped gives a wrong answer even to a later sequential call).
+func mixBLSDistinctInputs(c *Ctx, g int) string {
+	type job struct {
+		sk      crypto.PrivateKey
+		pk      crypto.PublicKey
+		h       hash.Hasher
+		msg     []byte
+		sig     crypto.Signature
+		pop     crypto.Signature
+		wantSig string
+	}
+	shared := crypto.NewExpandMsgXOFKMAC128("distinct-shared")
+	jobs := make([]*job, g)
+	for i := range jobs {
+		j := &job{sk: skFromInt(c.randScalar()), msg: c.bytes(10 + i)}
+		j.pk = j.sk.PublicKey()
+		if i%2 == 0 {
+			j.h = shared
+		} else {
+			j.h = crypto.NewExpandMsgXOFKMAC128(fmt.Sprintf("distinct-%d", i))
+		}
+		j.sig, _ = j.sk.Sign(j.msg, j.h)
+		j.pop, _ = crypto.BLSGeneratePOP(j.sk)
+		j.wantSig = hx(j.sig)
+		jobs[i] = j
+	}
+	round := func(j *job) string {
+		s, err := j.sk.Sign(j.msg, j.h)
+		if err != nil || hx(s) != j.wantSig {
+			return "sign-result-changed"
+		}
+		if ok, err := j.pk.Verify(j.sig, j.msg, j.h); err != nil || !ok {
+			return "valid-signature-rejected"
+		}
+		if ok, err := crypto.BLSVerifyPOP(j.pk, j.pop); err != nil || !ok {
+			return "valid-pop-rejected"
+		}
+		if ok, _ := j.pk.Verify(j.pop, j.msg, j.h); ok {
+			return "pop-accepted-as-signature"
+		}
+		return ""
+	}
+	results := make([]string, g)
+	start := make(chan struct{})
+	var wg sync.WaitGroup
+	for i := 0; i < g; i++ {
+		wg.Add(1)
+		go func(i int) {
+			defer wg.Done()
+			<-start
+			for rep := 0; rep < 25; rep++ {
+				if r := round(jobs[i]); r != "" {
+					results[i] = fmt.Sprintf("%s worker %d", r, i)
+					return
+				}
+			}
+		}(i)
+	}
+	close(start)
+	wg.Wait()
+	for _, r := range results {
+		if r != "" {
+			return r
+		}
+	}
+	for i, j := range jobs {
+		if r := round(j); r != "" {
+			return fmt.Sprintf("%s afterwards, alone, worker %d", r, i)
 		}
 	}
 	return "ok"
